@@ -35,8 +35,9 @@ type MediaSpec struct {
 
 // Call is one API call of the client program.
 type Call struct {
-	Api   string `json:"api"` // options describe announce setup play record pause
+	Api   string `json:"api"` // options describe announce setup play record pause | sleep (not a call: let time pass)
 	Media int    `json:"media,omitempty"`
+	Ms    int    `json:"ms,omitempty"` // sleep
 }
 
 // Mut is one mutation of the correct response.
@@ -48,17 +49,18 @@ type Mut struct {
 
 // Action is one thing the scripted server does in reaction to a request.
 type Action struct {
-	Kind    string `json:"kind"` // resp req frame raw close rst sleep half
+	Kind    string `json:"kind"` // resp req frame raw close rst sleep half udp
 	Muts    []Mut  `json:"muts,omitempty"`
 	Method  string `json:"method,omitempty"`  // req
-	Ch      int    `json:"ch,omitempty"`      // frame
+	Ch      int    `json:"ch,omitempty"`      // frame: channel; udp: 0 = RTP port, 1 = RTCP port of the first set-up media
 	Payload []byte `json:"payload,omitempty"` // frame payload / raw bytes
 	Ms      int    `json:"ms,omitempty"`      // sleep
 	NoParse bool   `json:"noparse,omitempty"` // what is written cannot be parsed by the client (its reader dies)
 }
 
 // Reaction is what the server does when it has read its N-th request with method M (1-based,
-// counted over all connections of the conversation; M "*" = N-th request of any method).
+// counted over all connections of the conversation; N 0 = every request with that method;
+// M "*" = N-th request of any method).  The first matching Reaction wins.
 // Requests without a Reaction get the correct response.
 type Reaction struct {
 	M    string   `json:"m"`
@@ -75,6 +77,7 @@ type Script struct {
 	Medias     []MediaSpec `json:"medias"`
 	Prog       []Call      `json:"prog"`
 	React      []Reaction  `json:"react,omitempty"`
+	Accept     []Reaction  `json:"accept,omitempty"` // N-th accepted connection: what the server writes at once (M unused)
 	Model      bool        `json:"model,omitempty"`  // every reaction has an abstract label: compare with the model
 	Frames     bool        `json:"frames,omitempty"` // after a successful Play/Record exchange media data
 	ConcClose  int         `json:"conc_close,omitempty"` // >0: Close() concurrently, that many ms after the call with this index+1 started … see runner
@@ -84,7 +87,7 @@ type Script struct {
 func (s *Script) reaction(method string, occ, total int) *Reaction {
 	for i := range s.React {
 		r := &s.React[i]
-		if (r.M == method && r.N == occ) || (r.M == "*" && r.N == total) {
+		if (r.M == method && (r.N == occ || r.N == 0)) || (r.M == "*" && r.N == total) {
 			return r
 		}
 	}
